@@ -63,6 +63,11 @@ CORPUS = [
     ('gfa2', _adds(['S\tA\t10\t*', 'S\tB\t10\t*', 'E\te1\tA+\tB+\t7\t10$\t0\t3\t*', 'G\tg1\tA+\tB-\t5\t*', 'U\tu1\tA B', 'O\to1\tA+ B+'])
      + [('rename', 'e1', '*'), ('rename', 'g1', '*'), ('rename', 'u1', '*'), ('rename', 'o1', '*'),
         ('add', 'G\te1\tB+\tA-\t1\t*'), ('add', 'U\tg1\tA'), ('rename', 'A', 'u1')]),
+    # lines without identifier that say the same twice: both are records, both go with their segment
+    ('gfa2', _adds(['S\tA\t10\t*', 'S\tB\t10\t*', 'E\t*\tA+\tB+\t7\t10$\t0\t3\t*', 'E\t*\tA+\tB+\t7\t10$\t0\t3\t*', 'G\t*\tA+\tB-\t5\t*', 'G\t*\tA+\tB-\t5\t*',
+                    'F\tA\tr+\t0\t3\t0\t3\t*', 'F\tA\tr+\t0\t3\t0\t3\t*', 'E\t*\tB+\tB-\t7\t10$\t7\t10$\t*'])
+     + [('rm', 'A'), ('rm', 'B')]),
+    ('gfa1', _adds(['S\tA\t*', 'S\tB\t*', 'C\tA\t+\tB\t+\t0\t*', 'C\tA\t+\tB\t+\t0\t*', 'L\tA\t+\tA\t-\t*', 'L\tB\t-\tB\t-\t*']) + [('rm', 'B'), ('rm', 'A')]),
     # two paths over one hairpin step, read before the link; the second quotes the complement overlap (F71)
     ('gfa1', _adds(['P\tp1\tx+,x-\t*', 'S\tx\t*', 'P\tp0\tx+,x-\t5D1I1D', 'L\tx\t+\tx\t-\t1I1D5I'])),
     ('gfa1', _adds(['P\tp1\tx-,x+\t3I5I3P', 'P\tp0\tx-,x+\t*', 'S\tx\t*\tLN:i:20', 'L\tx\t-\tx\t+\t3P5D3D'])),
